@@ -7,6 +7,7 @@ import ast
 import binascii
 import struct as _struct
 import types
+import re
 import z3
 
 from .sym import (V, VInt, VBool, VStr, VBytes, VFloat, VNone, NONE, VTuple, VList, VSeq, VMap, VSet,
@@ -941,6 +942,16 @@ class Models(object):
                     return [(path, lift(getattr(c, name)(enc)))]
                 except UnicodeError as e:
                     return ex.raise_(path, type(e), 'codec')
+            if enc not in ('ascii', 'us-ascii', 'utf-8', 'utf8', 'latin-1', 'latin1', 'iso-8859-1'):
+                # any other codec (idna, punycode, utf-16 ...): some function of (codec, text), or a UnicodeError - nothing
+                # more is known, in particular not that ASCII text maps to itself
+                F = z3.Function('codec_%s_%s' % (name, re.sub(r'[^a-z0-9]', '_', enc)), z3.StringSort(), z3.StringSort())
+                self.assumptions.add('text.%s(%r): an uninterpreted function of the text, or UnicodeError' % (name, enc))
+                pr = path.fork()
+                b_ = ex.fresh_bool(pr, 'codec_raises')
+                pr.assume(b_)
+                path.assume(z3.Not(b_))
+                return [(path, other(F(s.t)))] + ex.raise_(pr, UnicodeError, enc)
             # all chars < 128  <=> ascii-codable; then the code units are identical
             is_ascii = z3.InRe(s.t, z3.Star(z3.Range(mk_str('\x00'), mk_str('\x7f'))))
             out = []
